@@ -118,6 +118,30 @@ def requests(seed=1, size="quick"):
     def fr(x):
         f = Fraction(x)
         return str(f.numerator) if f.denominator == 1 else "%d/%d" % (f.numerator, f.denominator)
+    rvm = sys.modules.get("checkpoint_schedules.hrevolve_sequences.revolve")
+    drm = sys.modules.get("checkpoint_schedules.hrevolve_sequences.disk_revolve")
+
+    def tab0(lmax, mmax, uf, ub):
+        try:
+            t = rvm.get_opt_0_table(lmax, mmax, uf, ub)
+            return ";".join(",".join(fr(v) for v in row.content) for row in t)
+        except Exception as e:   # noqa: BLE001
+            return "raise:" + type(e).__name__
+
+    def tabinf(lmax, cm, uf, ub, rd, wd):
+        try:
+            t = drm.get_opt_inf_table(lmax, cm, uf, ub, rd, wd, True)
+            return ",".join(fr(v) for v in t.content)
+        except Exception as e:   # noqa: BLE001
+            return "raise:" + type(e).__name__
+    for lmax in (0, 1, 2, 5, 9, 14):
+        for mmax in (0, 1, 2, 4):
+            for uf, ub in ((1, 1), (3, 1), (0.5, 2), (2, 0.25)):
+                out.append(("opt0 %d %d %s %s" % (lmax, mmax, fr(uf), fr(ub)),
+                            lambda lmax=lmax, mmax=mmax, uf=uf, ub=ub: tab0(lmax, mmax, uf, ub)))
+                for rd, wd in ((2, 2), (0, 0.5), (5, 1)):
+                    out.append(("optinf %d %d %s %s %s %s" % (lmax, mmax, fr(uf), fr(ub), fr(rd), fr(wd)),
+                                lambda lmax=lmax, mmax=mmax, uf=uf, ub=ub, rd=rd, wd=wd: tabinf(lmax, mmax, uf, ub, rd, wd)))
     for x in range(0, 8):
         for y in range(-1, 8):
             out.append(("beta %d %d" % (x, y), lambda x=x, y=y: _val(lambda: bf.beta(x, y))))
